@@ -316,6 +316,7 @@ type datasetSink struct {
 	DatasetName    string
 	Store          *server.Store
 	DatasetManager *server.DsManager
+	fullSyncGen    uint64 // generation of the full sync this sink started
 }
 
 func (datasetSink *datasetSink) startFullSync(runner *Runner) error {
@@ -323,7 +324,9 @@ func (datasetSink *datasetSink) startFullSync(runner *Runner) error {
 	if dataset == nil {
 		return fmt.Errorf("dataset does not exist: %v", datasetSink.DatasetName)
 	}
-	return dataset.StartFullSync()
+	gen, err := dataset.StartFullSyncGen()
+	datasetSink.fullSyncGen = gen
+	return err
 }
 
 func (datasetSink *datasetSink) endFullSync(ctx context.Context, runner *Runner) error {
@@ -331,7 +334,7 @@ func (datasetSink *datasetSink) endFullSync(ctx context.Context, runner *Runner)
 	if dataset == nil {
 		return fmt.Errorf("dataset does not exist: %v", datasetSink.DatasetName)
 	}
-	err := dataset.CompleteFullSync(ctx)
+	err := dataset.CompleteFullSyncGen(ctx, datasetSink.fullSyncGen)
 	if err != nil {
 		return err
 	}
